@@ -232,11 +232,20 @@ func Module(vs []Variant) string {
 	for l := range shared {
 		sl = append(sl, l)
 	}
-	// types first, then the rest (sorted: deterministic).
+	// target/source directives first (LLVM requires target definitions before other entities),
+	// then types, then the rest (sorted: deterministic).
+	rank := func(l string) int {
+		switch {
+		case strings.HasPrefix(l, "target ") || strings.HasPrefix(l, "source_filename") || strings.HasPrefix(l, "module asm"):
+			return 0
+		case strings.HasPrefix(l, "%"):
+			return 1
+		}
+		return 2
+	}
 	sort.Slice(sl, func(i, j int) bool {
-		ti, tj := strings.HasPrefix(sl[i], "%"), strings.HasPrefix(sl[j], "%")
-		if ti != tj {
-			return ti
+		if rank(sl[i]) != rank(sl[j]) {
+			return rank(sl[i]) < rank(sl[j])
 		}
 		return sl[i] < sl[j]
 	})
